@@ -76,6 +76,11 @@ CLAIMS['C17'] = dict(level='other', technique='sibling column agreement on MIR b
     note='Shape only: a wrong condition inside a consulted accessor is invisible here (C18 covers the tables).',
     ref='§4 C17')
 
+CLAIMS['C10'] = dict(level='other', technique='sibling predicate agreement by cut-set/reachability on MIR CFGs (four per-file views), may-mutate call-graph summary x tree-iterator loops, true-edge guards (must-pass) for membership writes, must-pass of the rollback on the merge failure edge',
+    text='Decides structural necessary conditions only: the serializer (both arms), the file-scoped iterator and the per-file compatibility walk select sub elements by the same predicate membership.is_empty() || membership.contains(view file); the element tree is never modified inside a loop that advances one of the index-based tree iterators; add_to_file/remove_from_file change file sets only after file.model()==self.model() and the splittable test; the file API deletes elements only through remove_sub_element; a failed merge is rolled back through remove_from_file before the file joins model.files. Does NOT decide the inheritance invariant (child restricted only to files that contain its parent) under arbitrary histories, nor that every element is written to some file.',
+    note='Narrow necessary conditions; the membership algebra itself is a run-time relation between sets.',
+    ref='§4 C10')
+
 NA = {
     'C16': 'serialisability quantifies over interleavings and compares with sequential runs; the only static route (two-phase/reduction analysis) rejects essentially every public operation of the present design, so it cannot separate code that holds the property from code that does not',
     'C20': 'statement about numeric results (exactness, correct rounding, overflow per width) computed by std parsers for all texts; no static argument in reach bounds these run-time quantities',
